@@ -1,6 +1,6 @@
 (* Pins the C10 statements and prints what they depend on. Compiled on every run. *)
 From Coq Require Import String.
-From VP Require Import Base.Tactics Expr.Syntax Expr.Float Expr.Model Expr.B64 Expr.Run Expr.Props.
+From VP Require Import Base.Tactics Expr.Syntax Expr.Float Expr.Model Expr.B64 Expr.Run Expr.PropsC10.
 Close Scope string_scope.
 Open Scope list_scope.
 
